@@ -115,3 +115,47 @@ def concrete(v):
     except ImportError:       # pragma: no cover
         pass
     return v
+
+
+def tame_xmlschema():
+    """Engine artefact mitigation (DESIGN 10): under CrossHair, str.format()/repr() of an object deep-copies it
+    ("deep realisation").  For xmlschema components that means copying the whole schema graph on every error
+    message (seconds per path) and, for half-built resources, spurious AttributeErrors from __getstate__.
+    Components, schemas, maps and resources carry no symbolic state that formatting needs, so deep realisation
+    returns the object itself.  No effect on the plain interpreter (the hook name is CrossHair-specific)."""
+    import xmlschema
+    from xmlschema.validators.xsdbase import XsdValidator
+    from xmlschema.resources import XMLResource
+    from xmlschema.namespaces import NamespaceMapper
+    targets = [XsdValidator, XMLResource, NamespaceMapper]
+    try:
+        from xmlschema.validators.builders import GlobalMaps
+        targets.append(GlobalMaps)
+    except Exception:
+        pass
+    try:
+        from xmlschema.validators.xsd_globals import XsdGlobals
+        targets.append(XsdGlobals)
+    except Exception:
+        pass
+    try:
+        from xmlschema.resources.xml_loader import XMLResourceLoader
+        targets.append(XMLResourceLoader)
+    except Exception:
+        pass
+    for cls in targets:
+        if '__ch_deep_realize__' not in cls.__dict__:
+            cls.__ch_deep_realize__ = lambda self, memo: self
+        # CrossHair "short-circuits" calls of its own contract-carrying patches (repr/format) and deep-copies their
+        # arguments in BEST_EFFORT mode, which honours __deepcopy__ (installed in analysis processes only)
+        if '__deepcopy__' not in cls.__dict__:
+            cls.__deepcopy__ = lambda self, memo: self
+
+
+def pick(i, n):
+    """concrete value of a symbolic index 0 <= i < n by explicit comparison (one two-way fork per candidate value;
+    CrossHair's own realisation of an int explores many more decision nodes)"""
+    for k in range(n):
+        if i == k:
+            return k
+    raise ValueError("index out of range")
